@@ -53,6 +53,7 @@ def plan(tier, seed):
             ops=rnd.choice([20, 40, 60]),
             delays=rnd.random() < 0.7,
             line_yields=rnd.random() < 0.6,
+            concurrent_starts=rnd.random() < 0.5,
         )
         shards.append(dict(persona="other", seed=seed, index=i, cfg=cfg, winsize=[80, 24, 640, 384]))
     return shards
@@ -161,18 +162,33 @@ def run_shard(shard, env):
             ths.append(threading.Thread(target=cc.hammer, args=("main", cfg["ops"], seed), daemon=True, name="main.hammer"))
             for t in ths:
                 t.start()
-            def starter():
-                for j in range(cfg["children"]):
-                    time.sleep(rnd.uniform(0, 0.004))
-                    p = mp.Process(target=cc.child_main, args=(cfg, "c%d" % j, seed * 3 + j, 1))
-                    procs.append(p)
-                    p.start()  # outside any synchronized call
+            procs_lock = threading.Lock()
+            nstart = cfg["children"]
+            gate = threading.Barrier(nstart) if cfg.get("concurrent_starts") and nstart > 1 else None
 
-            st = threading.Thread(target=starter, daemon=True, name="starter")
-            st.start()
-            st.join(25)
-            if st.is_alive():
-                ths.append(st)
+            def start_one(j):
+                p = mp.Process(target=cc.child_main, args=(cfg, "c%d" % j, seed * 3 + j, 1))
+                with procs_lock:
+                    procs.append(p)
+                if gate is not None:
+                    gate.wait(10)  # the (first-ever) starts of this process race each other
+                p.start()  # outside any synchronized call
+
+            def starter():
+                for j in range(nstart):
+                    time.sleep(rnd.uniform(0, 0.004))
+                    start_one(j)
+
+            if gate is not None:
+                sts = [threading.Thread(target=start_one, args=(j,), daemon=True, name="starter%d" % j) for j in range(nstart)]
+            else:
+                sts = [threading.Thread(target=starter, daemon=True, name="starter")]
+            for st in sts:
+                st.start()
+            for st in sts:
+                st.join(25)
+                if st.is_alive():
+                    ths.append(st)
             deadline = time.monotonic() + 25
             for t in ths:
                 t.join(max(0.1, deadline - time.monotonic()))
